@@ -265,8 +265,15 @@ def rule_R04_4(ctx):
         arcs = [c for c in nfp.calls() if (c.declared or "") == "std::sync::Arc::<T>::new"]
         clones = [c for c in nfp.calls() if (c.declared or "") == "std::clone::Clone::clone"]
         r.inst("new_from_push: %d push, %d Arc::new, %d clone" % (len(pushes), len(arcs), len(clones)))
-        if len(pushes) == 1 and len(arcs) == 1 and clones and not nfp.natural_loops():
+        rets = [b for b in nfp.reachable() if nfp.term(b)["k"] == "return"]
+        uncond = bool(pushes) and all(nfp.dominates(pushes[0].bb, b) for b in rets)
+        if len(pushes) == 1 and len(arcs) == 1 and clones and not nfp.natural_loops() and uncond:
             r.ok()
+        elif len(pushes) == 1 and not uncond:
+            r.fail("new_from_push | push is conditional",
+                   "new_from_push does not push a scope cell on every path: a "
+                   "chain handed to a block (or captured by a closure) may "
+                   "lack the block's own scope", where=pushes[0].loc)
         else:
             r.fail("new_from_push | shape push=%d arc=%d clone=%d" % (len(pushes), len(arcs), len(clones)),
                    "new_from_push must push exactly one new scope cell onto a clone of the chain")
